@@ -10,24 +10,24 @@ RULE = ("cases are generated text-only (the implementation is never used to buil
         "0..maxdim x 0..maxdim (maxdim 4..7 per ring) systematically, then random; matrix kinds: zero, sparse small "
         "(rank deficient), dense small, planted invariant factors U*diag*V with non-sorted non-chain diagonal (units, "
         "primes, composites, Gaussian / Eisenstein multiples) and random unimodular U, V, diagonal inputs with units "
-        "and zeros in between, big entries (60 / 400 / 1000 bits, BigInt rings only, low-rank products and independent "
-        "entries); rationals with small non-reduced denominators. Per matrix: `snf` cases with all four flags, and "
+        "and zeros in between, big entries (60 / 400 / 1000 bits = up to 302 decimal digits, BigInt rings only, low-rank products and "
+        "independent entries; few of them, the extracted model needs seconds per case there); rationals with small non-reduced denominators. Per matrix: `snf` cases with all four flags, and "
         "all 16 flag subsets for every fourth matrix (two random subsets otherwise), each run through snf() and "
         "snf_in_place() (must agree) and compared as data on (D, P, Pinv, Q, Qinv, rank, factors) with the extracted "
         "model; plus one `chk` case carrying the implementation's own output under all four flags, on which the Coq "
         "checker (chk_pq, chk_inv, chk_shape, proved sound; chk_minors = gcds of k x k minors by Laplace expansion for "
         "m, n small) is evaluated: the expected verdict is all-true. A case is non-trivial when the call returned "
         "(no panic) and the matrix has rank >= 1 (snf) resp. m, n >= 1 (chk); distinct = distinct case lines")
-ASSUME = ["pre_ok: the LLL-HNF preprocessing returns H = P*A with P*Pinv = I = Pinv*P (property C10); a premise of the "
-          "theorems for the preprocessed rings, exercised by the exact comparison",
+ASSUME = ["pre_ok / pre_total: the LLL-HNF preprocessing returns H = P*A with P*Pinv = I = Pinv*P, and returns at all (property "
+          "C10); premises of C09_total for the preprocessed types (i64, i128, BigInt, Z[i]/Z[w] over i64/BigInt), exercised by the "
+          "exact comparison; the dictionaries without preprocessing have closed theorems",
           "ring dictionaries of Model/Snf.v behave as the Rust scalar types on the explored entries (validated by the run; "
-          "C14/C15); snf_laws is proved for Z, Z[i], Z[w], Q, F_2, F_p in Coq",
-          "termination of eliminate_at's while loop, of the generic EucRing::gcdx over Z[i]/Z[w] and of the LLL loops is NOT "
-          "proved: the run records that the model's fuel was never exhausted (model_none = 0)",
+          "C14/C15); snf_laws, norm_laws, gcdx_total are proved for Z, Z[i], Z[w], Q, F_2, F_p in Coq",
           "uniqueness of the invariant factors (gcds of minors) is not proved; chk_minors is evaluated on the "
           "implementation's output for small shapes (validation of individual outputs)",
           "machine-width overflow aborts (i32/i64/i128 and their quadratic / rational extensions panic where the unbounded "
-          "model returns a value) are out of scope and counted, not flagged; BigInt rings are compared exactly"]
+          "model returns a value) are out of scope and counted, not flagged; BigInt rings are compared exactly; a model run "
+          "returning None (model_none) or a panic on an arbitrary-precision ring would be reported as a violation"]
 
 MACHINE = {"i32", "i64", "i128", "gi32", "gi64", "ei32", "ei64", "q64"}
 BAD = ("TOP-PANIC", "FORMS-DIFFER")
